@@ -58,5 +58,11 @@ func GenC09(seed uint64, thorough bool) *C09Case {
 		}
 		c.Clients = append(c.Clients, sizes)
 	}
+	switch x := r.Intn(20); {
+	case x < 5:
+		c.CtxMs = []int{1, 20, 120, 600, 3000}[r.Intn(5)]
+	case x == 5:
+		c.CtxMs = -1
+	}
 	return c
 }
